@@ -48,15 +48,15 @@ type ExitInfo struct {
 
 // Hooks configure a PathWalk.
 type Hooks struct {
-	Fork      func(c ssa.CallInstruction) []Outcome
-	Step      func(in ssa.Instruction) map[string]int
-	Exit      func(e ExitInfo)
+	Fork func(c ssa.CallInstruction) []Outcome
+	Step func(in ssa.Instruction) map[string]int
+	Exit func(e ExitInfo)
 	// StickyFields: struct fields (by FieldAddrName) whose value, once stored on a path,
 	// is assumed to survive calls made later on the path (the rule that sets this must
 	// separately check that nothing resets the field).
 	StickyFields map[string]bool
 	MaxVisits    int // per block per path; default 2
-	MaxPaths  int // safety bound; default 20000
+	MaxPaths     int // safety bound; default 20000
 }
 
 type pwState struct {
@@ -64,7 +64,7 @@ type pwState struct {
 	nilness  map[ssa.Value]bool // value -> is nil (only recorded when known)
 	errIs    map[ssa.Value]map[string]bool
 	boolval  map[ssa.Value]bool
-	fields   map[string]ssa.Value // "<base>#<field name>" -> last value stored on this path
+	fields   map[string]ssa.Value    // "<base>#<field name>" -> last value stored on this path
 	loaded   map[*ssa.UnOp]ssa.Value // field loads executed on this path -> value read
 	visits   map[int]int
 	defers   []ssa.CallInstruction
